@@ -235,9 +235,13 @@ theorem secidxLoop_erase (w : Bool) : ∀ (fuel : Nat) (sec : Cfg) (steps : List
         obtain ⟨ii, s⟩ := y
         simp only [Option.map_some, ih]
 
+@[simp] theorem keyFirst_erase (c : Cfg) (name : Bytes) (w : Bool) : keyFirst (eraseCfg c) name w = keyFirst c name w := by
+  unfold keyFirst
+  simp only [getoptLeaf_erase, eraseCfg_flags]
+
 @[simp] theorem getoptPath_erase (c : Cfg) (name : Bytes) : getoptPath (eraseCfg c) name = getoptPath c name := by
   unfold getoptPath getoptSecidx
-  simp only [secidxLoop_erase, eraseCfg_flags]
+  simp only [secidxLoop_erase, eraseCfg_flags, keyFirst_erase]
 
 
 /-! ### the store under erasure -/
